@@ -19,8 +19,9 @@ def hostile_program(b, i, seed):
     elif z:
         edits.append({"how": "setpt", "f": z, "v": 0})
     p["tamper"] = edits
-    p["expect_p"] = "ok"
-    p["expect_v"] = b["expect"]
+    # the honest shape: whether it is accepted is completeness (C01); this property only asks for a value instead of a panic
+    p["expect_p"] = ""
+    p["expect_v"] = "" if b["expect"] == "ok" else b["expect"]
     return p
 
 
@@ -76,6 +77,10 @@ def run(chk):
                 chk.cov.setdefault("mutations_decoded", 0)
                 chk.cov["mutations_decoded"] += row.get("decoded", 0)
                 for b in row["bad"]:
+                    if b == "honest run failed":
+                        # no honest proof of this shape to mutate (completeness is C01's business): the shape is skipped
+                        chk.cov["shapes_without_honest_proof"] = chk.cov.get("shapes_without_honest_proof", 0) + 1
+                        continue
                     b = b if isinstance(b, dict) else {"what": b}
                     chk.violation("mutation-%s-%s-%s" % (c, pr["id"], b.get("i", "")),
                                   {"curve": c, "program": pr, "mutation": b, "site": "ipp-list-length-mismatch" if b.get("site") == "verify-panic" else "decode"},
